@@ -210,3 +210,53 @@ Lemma once_ev_nth fa st to i :
 Proof.
   intros Hl (t & Ht). apply nth_error_Some. rewrite <- (Hl to). apply nth_error_Some. congruence.
 Qed.
+
+(* the same with a predicate on the states of the run as well *)
+Theorem rel_leads_er (Dt Da : Z) (E : net_event -> Prop) (R : net -> Prop) (J Q : fair_aux -> net -> Prop)
+        (x : side) (T : Z) :
+  (forall fa st, J fa st -> net_now st x <= T) ->
+  (forall fa st ev st', E ev -> R st -> R st' -> J fa st -> fair_ev fa st ev -> once_ev fa ev -> net_step st ev = Ok st' ->
+     Q (fa_after Dt Da fa ev st') st' \/ J (fa_after Dt Da fa ev st') st') ->
+  forall evs fa st st',
+    J fa st -> Forall E evs -> run_all R st evs -> fair_run Dt Da fa st evs -> once_run Dt Da fa st evs ->
+    net_run st evs = Ok st' -> T < net_now st' x ->
+    exists pre post st1,
+      evs = pre ++ post /\ net_run st pre = Ok st1 /\ net_run st1 post = Ok st' /\
+      Forall E post /\ run_all R st1 post /\ fair_run Dt Da (fa_run Dt Da fa st pre) st1 post /\
+      once_run Dt Da (fa_run Dt Da fa st pre) st1 post /\ Q (fa_run Dt Da fa st pre) st1.
+Proof.
+  intros Hclock Hstep. induction evs as [|ev r IH]; intros fa st st' HJ HE HR Hfair Honce Hrun Hpast.
+  - cbn [net_run] in Hrun. inversion Hrun; subst. specialize (Hclock _ _ HJ). lia.
+  - cbn [net_run] in Hrun. apply obind_ok in Hrun. destruct Hrun as (st1 & Hs & Hr).
+    cbn [fair_run] in Hfair. destruct Hfair as (Hev & Hrest). rewrite Hs in Hrest.
+    cbn [once_run] in Honce. destruct Honce as (Hoe & Horest). rewrite Hs in Horest.
+    cbn [run_all] in HR. destruct HR as (HR0 & HR1). rewrite Hs in HR1.
+    inversion HE as [|? ? HE0 HE1]; subst.
+    destruct (Hstep _ _ _ _ HE0 HR0 (run_all_here _ _ _ HR1) HJ Hev Hoe Hs) as [HQ | HJ'].
+    + exists [ev], r, st1. cbn [fa_run]. rewrite Hs.
+      split; [reflexivity|]. split; [cbn [net_run]; rewrite Hs; reflexivity|].
+      split; [exact Hr|]. split; [exact HE1|]. split; [exact HR1|]. split; [exact Hrest|]. split; [exact Horest | exact HQ].
+    + destruct (IH _ _ _ HJ' HE1 HR1 Hrest Horest Hr Hpast)
+        as (pre & post & st2 & -> & Hp1 & Hp2 & HE2 & HR2 & Hf & Ho & HQ).
+      exists (ev :: pre), post, st2. cbn [fa_run]. rewrite Hs.
+      split; [reflexivity|]. split; [cbn [net_run]; rewrite Hs; exact Hp1|].
+      split; [exact Hp2|]. split; [exact HE2|]. split; [exact HR2|]. split; [exact Hf|]. split; [exact Ho | exact HQ].
+Qed.
+
+(* an invariant of reliable runs, with both predicates *)
+Lemma rel_inv_er (Dt Da : Z) (E : net_event -> Prop) (R : net -> Prop) (K : fair_aux -> net -> Prop) :
+  (forall fa st ev st', E ev -> R st -> R st' -> K fa st -> fair_ev fa st ev -> once_ev fa ev -> net_step st ev = Ok st' ->
+     K (fa_after Dt Da fa ev st') st') ->
+  forall evs fa st st',
+    K fa st -> Forall E evs -> run_all R st evs -> fair_run Dt Da fa st evs -> once_run Dt Da fa st evs ->
+    net_run st evs = Ok st' -> K (fa_run Dt Da fa st evs) st'.
+Proof.
+  intros Hstep. induction evs as [|ev r IH]; intros fa st st' HK HE HR Hfair Honce Hrun.
+  - cbn [net_run] in Hrun. inversion Hrun; subst. exact HK.
+  - cbn [net_run] in Hrun. apply obind_ok in Hrun. destruct Hrun as (st1 & Hs & Hr).
+    cbn [fair_run] in Hfair. destruct Hfair as (Hev & Hrest). rewrite Hs in Hrest.
+    cbn [once_run] in Honce. destruct Honce as (Hoe & Horest). rewrite Hs in Horest.
+    cbn [run_all] in HR. destruct HR as (HR0 & HR1). rewrite Hs in HR1.
+    inversion HE as [|? ? HE0 HE1]; subst. cbn [fa_run]. rewrite Hs.
+    apply (IH _ _ _ (Hstep _ _ _ _ HE0 HR0 (run_all_here _ _ _ HR1) HK Hev Hoe Hs) HE1 HR1 Hrest Horest Hr).
+Qed.
